@@ -163,7 +163,28 @@ def run_task(task):
                 outcome, ctx, info = execute(sc, d)
                 res.account(sc, outcome, ctx, info, d.choices, i < 50)
             res.exhaustive[sc.name] = total
-        if n_examples > 0:
+        if n_examples > 0 and getattr(sc, 'machine', None) is not None:
+            st_ = sc.machine(seed_value, n_examples, tier)
+            res.evaluations += st_['evaluations']
+            res.outcomes['ok'] += st_['evaluations']
+            res.nontrivial |= set(st_['nontrivial'])
+            for k_, v_ in st_['labels'].items():
+                res.labels[k_] += v_
+            res.labels['history-steps'] += st_['steps']
+            res.samples.extend(st_['samples'][:2])
+            if st_['violation'] is not None:
+                v_ = st_['violation']
+                res.outcomes['violation'] += 1
+                attrs = ','.join(f'{k}={v_["attrs"][k]}' for k in sorted(v_['attrs']))
+                sig = f'{sc.name}/{v_["clause"]}' + (f'/{attrs}' if attrs else '')
+                res.violations[sig] = {
+                    'sig': sig, 'sub': sc.name, 'clause': v_['clause'],
+                    'detail': v_['detail'], 'attrs': jsonable(v_['attrs']),
+                    'choices': [], 'count': 1, 'desc': {},
+                    'steps': json.loads(json.dumps(v_['steps'], default=str)),
+                    'trainer_kwargs': v_['trainer_kwargs'],
+                }
+        elif n_examples > 0:
             import hypothesis
             from hypothesis import HealthCheck, Phase, given, settings
             from hypothesis import strategies as st
@@ -306,6 +327,19 @@ def do_replay(pid, path):
     doc = json.load(open(path))
     mod = load_prop(doc.get('property', pid))
     sc = [s for s in mod.SUBCHECKS if s.name == doc['subcheck']][0]
+    if 'steps' in doc:
+        print(f'replay {path}: subcheck={sc.name} history of {len(doc["steps"])} steps')
+        for st_ in doc['steps']:
+            print('  step:', json.dumps(st_, default=str))
+        try:
+            with np.errstate(all='ignore'):
+                sc.replay_steps(doc['steps'], doc.get('trainer_kwargs', {}))
+        except Violation as v:
+            print(f'violated clause: {v.clause}\n  {v.detail}')
+            print(f'VIOLATION property={pid} replay={path}')
+            return 1
+        print('no violation reproduced on this tree')
+        return 0
     d = ReplayDraw(doc['choices'])
     outcome, ctx, info = execute(sc, d)
     print(f'replay {path}: subcheck={sc.name} outcome={outcome}')
@@ -481,12 +515,18 @@ def main(argv=None):
         if unknown > 8:
             max_runs, max_s = 0, 0
         choices, ctx, info, runs = v['choices'], None, None, 0
-        try:
-            c2, ctx, info, runs = shrink(sc, v['choices'], sig, max_runs, max_s)
-            if info is not None:
-                choices = c2
-        except Exception:  # noqa
-            pass
+        if 'steps' in v:
+            class _S:
+                clause = v['clause']
+                detail = v['detail'] + ' [history minimised by the Hypothesis shrinker]'
+            info = _S()
+        else:
+            try:
+                c2, ctx, info, runs = shrink(sc, v['choices'], sig, max_runs, max_s)
+                if info is not None:
+                    choices = c2
+            except Exception:  # noqa
+                pass
         if info is None:
             # could not re-execute deterministically: still report the
             # recorded case (flagged)
@@ -497,6 +537,9 @@ def main(argv=None):
         extra = {'found_in_tier': tier, 'verif_seed': verif_seed,
                  'cases_with_this_signature': v['count'],
                  'shrink_reexecutions': runs}
+        if 'steps' in v:
+            extra['steps'] = v['steps']
+            extra['trainer_kwargs'] = v.get('trainer_kwargs', {})
         path = write_replay(pid, sc, sig, choices, ctx, info, extra,
                             'regress' if args.save_regress else 'replay')
         rel = os.path.relpath(path, ROOT)
